@@ -276,6 +276,11 @@ def nested_builder(ctx, R, q="signac._utility:_dotted_dict_to_nested_dicts"):
     shallow = [n for n in body_nodes(fi) if isinstance(n, ast.Call) and isinstance(n.func, ast.Attribute) and n.func.attr == "update" and n.args
                and not (isinstance(n.args[0], ast.Dict) and all(not isinstance(v, (ast.Dict, ast.Name)) for v in n.args[0].values))]
     rec_store = rec_store or shallow
+    if not rec_store and not desc:
+        # a sub-mapping wrapped around the value ({token: value}) and stored under the head key replaces whatever an earlier dotted key put there
+        wrapped = {t.id for n in body_nodes(fi) if isinstance(n, ast.Assign) and isinstance(n.value, ast.Dict) and n.value.keys for t in n.targets if isinstance(t, ast.Name)}
+        rec_store = [n for n in body_nodes(fi) if isinstance(n, ast.Assign) and any(isinstance(t, ast.Subscript) for t in n.targets)
+                     and (isinstance(n.value, ast.Dict) and n.value.keys or (isinstance(n.value, ast.Name) and n.value.id in wrapped))]
     k = q + "|merge"
     if rec_store:
         out.append(ctx.viol(R, fi, rec_store[0], f"`{stmt_key(rec_store[0], 50)}` stores / merges a pre-built sub-mapping shallowly: two dotted keys that share a prefix of two or more levels "
@@ -399,4 +404,249 @@ def param_not_mutated(ctx, R, table):
             out.append(ctx.viol(R, fi, m, f"`{stmt_key(m, 50)}` modifies `{par}` in place while it can still be {what}: {why}", construct=k))
         else:
             out.append(ctx.ok(R, fi, fi.node, f"`{par}` is modified in place at {len(muts)} site(s), each reached only by a fresh copy", construct=k, nontrivial=bool(muts)))
+    return out
+
+
+_MUTABLE_CTORS = ("dict", "list", "set", "defaultdict", "OrderedDict", "deque", "Counter")
+_INPLACE_METHODS = ("update", "append", "extend", "add", "pop", "popitem", "clear", "setdefault", "remove", "discard", "insert")
+
+
+def no_shared_mutable_class_state(ctx, R, class_quals, why):
+    """A mutable object bound in a class body is shared by every instance.  If a method also modifies `self.<name>` in place (item store,
+    update / append / ...), state leaks between instances whenever the per-instance binding is missing (e.g. after unpickling with a reduced
+    __getstate__, copy.copy before __init__ ...).  Such attributes must be bound per instance only."""
+    out = []
+    for cq in class_quals:
+        ci = ctx.prog.classes.get(cq)
+        k = f"{cq}|class-level-mutable"
+        if ci is None:
+            out.append(ctx.inc(R, None, None, f"class {cq} not found", construct=k))
+            continue
+        shared = {}
+        for st in ci.node.body:
+            if isinstance(st, (ast.Assign, ast.AnnAssign)) and getattr(st, "value", None) is not None:
+                v = st.value
+                mut = isinstance(v, (ast.Dict, ast.List, ast.Set, ast.DictComp, ast.ListComp, ast.SetComp)) or \
+                    (isinstance(v, ast.Call) and (dotted(v.func) or "").split(".")[-1] in _MUTABLE_CTORS)
+                if mut:
+                    for t in (st.targets if isinstance(st, ast.Assign) else [st.target]):
+                        if isinstance(t, ast.Name):
+                            shared[t.id] = st
+        hit = None
+        for m in ci.methods.values():
+            for n in body_nodes(m):
+                tgt = None
+                if isinstance(n, (ast.Assign, ast.AugAssign, ast.Delete)):
+                    for t in (n.targets if isinstance(n, (ast.Assign, ast.Delete)) else [n.target]):
+                        if isinstance(t, ast.Subscript):
+                            tgt = t.value
+                elif isinstance(n, ast.Call) and isinstance(n.func, ast.Attribute) and n.func.attr in _INPLACE_METHODS:
+                    tgt = n.func.value
+                if isinstance(tgt, ast.Attribute) and isinstance(tgt.value, ast.Name) and tgt.value.id in ("self", "cls") and tgt.attr in shared:
+                    hit = hit or (m, n, tgt.attr)
+        if hit:
+            m, n, a = hit
+            out.append(ctx.viol(R, m, n, f"`{a}` is bound to a mutable object in the body of {ci.name} (line {shared[a].lineno}) and modified in place here: every instance that has no "
+                                f"binding of its own shares that one object: {why}", construct=k))
+        else:
+            out.append(ctx.ok(R, None, None, f"{ci.name}: no class-level mutable object is modified in place through an instance ({len(shared)} class-level mutable attribute(s))",
+                              construct=k, nontrivial=False))
+    return out
+
+
+def loop_carried_locals(ctx, fi):
+    """[(loop, name, read_node, witness)] for locals that are assigned inside a loop body and can be read in the body on a path from the top of an
+    iteration that passes none of those assignments: the value then comes from before the loop or from the previous iteration.
+    Augmented assignments (accumulators) and names only ever mutated by method calls are not assignments in this sense."""
+    cfg = ctx.cfg(fi)
+    out = []
+    loops = [n for n in cfg.stmt_nodes() if isinstance(n.ast, (ast.For, ast.AsyncFor, ast.While)) and n.kind in ("loop", "test", "stmt", "for")]
+    seen = set()
+    for ln in loops:
+        lp = ln.ast
+        if id(lp) in seen:
+            continue
+        seen.add(id(lp))
+        body_ids = set()
+        for n in cfg.stmt_nodes():
+            if n.ast is not lp and any(n.ast is x for st in lp.body for x in ast.walk(st)):
+                body_ids.add(n.id)
+        if not body_ids:
+            continue
+        tnames = set(common.target_names(lp.target)) if isinstance(lp, (ast.For, ast.AsyncFor)) else set()
+        defs = {}
+        for n in cfg.stmt_nodes():
+            if n.id not in body_ids:
+                continue
+            a = n.ast
+            names = []
+            if isinstance(a, ast.Assign) and n.kind == "stmt":
+                for t in a.targets:
+                    names += common.target_names(t)
+            elif isinstance(a, (ast.For, ast.AsyncFor)):
+                names += common.target_names(a.target)
+            elif isinstance(a, (ast.With, ast.AsyncWith)):
+                for it in a.items:
+                    if it.optional_vars is not None:
+                        names += common.target_names(it.optional_vars)
+            elif isinstance(a, ast.ExceptHandler) and a.name:
+                names.append(a.name)
+            elif isinstance(a, ast.AugAssign) and isinstance(a.target, ast.Name):
+                defs.setdefault(a.target.id, set()).add(("aug", n.id))
+            for nm in names:
+                defs.setdefault(nm, set()).add(("def", n.id))
+        # first statement(s) of an iteration
+        starts = [n.id for n in cfg.stmt_nodes() if lp.body and n.ast is lp.body[0]] or []
+        if not starts:
+            continue
+        for nm, ds in defs.items():
+            if nm in tnames or any(k == "aug" for k, _ in ds):
+                continue
+            def_ids = {i for _, i in ds}
+            for n in cfg.stmt_nodes():
+                if n.id not in body_ids or n.id in def_ids and not isinstance(n.ast, (ast.For, ast.With)):
+                    pass
+                if n.id not in body_ids:
+                    continue
+                from ..cfg import own_exprs
+                reads = [x for sub in own_exprs(n.ast) for x in walk_no_nested(sub) if isinstance(x, ast.Name) and x.id == nm and isinstance(x.ctx, ast.Load)]
+                if not reads:
+                    continue
+                if n.id in starts and n.id not in def_ids:
+                    out.append((lp, nm, reads[0], None))
+                    break
+                blocked = (def_ids - {n.id}) | (set(x.id for x in cfg.stmt_nodes()) - body_ids - {n.id})
+                w = None
+                for s in starts:
+                    if s in def_ids and s != n.id:
+                        continue
+                    w = w or cfg.path(s, {n.id}, blocked=blocked - {s}, kinds="nx")
+                if w is not None:
+                    out.append((lp, nm, reads[0], w))
+                    break
+    return out
+
+
+def _is_cursor(lp, nm):
+    """Every assignment to nm inside the loop computes the new value from the old one (`v = v[n]`, `node = node.child(...)`, `p = up` with `up := dirname(p)`)
+    or sets a constant latch: the variable is a cursor / accumulator by construction, not a per-item value."""
+    assigns = [n for n in ast.walk(lp) if isinstance(n, ast.Assign) and any(nm in common.target_names(t) for t in n.targets)]
+    if not assigns:
+        return False
+    bound = {}
+    for n in ast.walk(lp):
+        if isinstance(n, ast.NamedExpr) and isinstance(n.target, ast.Name):
+            bound.setdefault(n.target.id, []).append(n.value)
+        elif isinstance(n, ast.Assign):
+            for t in n.targets:
+                if isinstance(t, ast.Name):
+                    bound.setdefault(t.id, []).append(n.value)
+    for a in assigns:
+        v = a.value
+        if isinstance(v, ast.Constant) or nm in names_in(v):
+            continue
+        if isinstance(v, ast.Name) and v.id in bound and all(nm in names_in(x) for x in bound[v.id]):
+            continue
+        return False
+    return True
+
+
+def per_item_loops(ctx, R, table):
+    """In a loop that produces one record / performs one action per job, everything read in an iteration is computed in that iteration (or is
+    loop-invariant): a local that is assigned in the body but can be read before this iteration's assignment carries the previous job's
+    value.  table: (function, why)."""
+    out = []
+    for q, why in table:
+        fi = ctx.prog.funcs.get(q)
+        k = f"{q}|per-item-loop"
+        if fi is None:
+            out.append(ctx.inc(R, None, None, f"function {q} not found", construct=k))
+            continue
+        fns = [fi] + list(fi.nested_all)
+        hits = []
+        nloops = 0
+        for g in fns:
+            nloops += sum(1 for n in body_nodes(g) if isinstance(n, (ast.For, ast.While)))
+            for lp, nm, rd, w in loop_carried_locals(ctx, g):
+                if _is_cursor(lp, nm):
+                    continue
+                hits.append((g, lp, nm, rd, w))
+        if hits:
+            g, lp, nm, rd, w = hits[0]
+            out.append(ctx.viol(R, g, rd, f"`{nm}` is assigned inside the loop at line {lp.lineno} but can be read here on a path of the same iteration that passes no assignment "
+                                f"(e.g. through an exception handler or a skipped branch): the value of the previous iteration (another job) is used: {why}",
+                                construct=k, witness=ctx.cfg(g).describe_path(w) if w else None))
+        else:
+            out.append(ctx.ok(R, fi, fi.node, f"{nloops} loop(s): nothing is carried from one iteration to the next", construct=k, nontrivial=nloops > 0))
+    return out
+
+
+def walk_pruning_effective(ctx, R, modules):
+    """os.walk honours in-place edits of its `dirnames` list only while the generator is live and top-down: a loop that prunes must iterate the
+    os.walk(...) call itself (not sorted(...) / list(...) of it) and must not pass topdown=False."""
+    out = []
+    n_prune = 0
+    for mq in modules:
+        for fi in ctx.prog.functions_of_module(mq):
+            for lp in [n for n in body_nodes(fi) if isinstance(n, (ast.For, ast.AsyncFor))]:
+                walks = [c for c in ast.walk(lp.iter) if isinstance(c, ast.Call) and common.ext_name(ctx, fi, c) == "os.walk"]
+                if not walks or not (isinstance(lp.target, ast.Tuple) and len(lp.target.elts) == 3 and isinstance(lp.target.elts[1], ast.Name)):
+                    continue
+                dn = lp.target.elts[1].id
+                prunes = []
+                for n in ast.walk(lp):
+                    if isinstance(n, (ast.Delete, ast.Assign)) and any(isinstance(t, ast.Subscript) and canon(t.value) == dn for t in n.targets):
+                        prunes.append(n)
+                    if isinstance(n, ast.Call) and isinstance(n.func, ast.Attribute) and canon(n.func.value) == dn and n.func.attr in ("clear", "remove", "pop", "sort"):
+                        prunes.append(n)
+                if not prunes:
+                    continue
+                n_prune += 1
+                k = f"{fi.qual}|walk-prune"
+                td = kwarg(walks[0], "topdown")
+                if walks[0] is not lp.iter:
+                    out.append(ctx.viol(R, fi, lp, f"the loop prunes `{dn}` in place but iterates {canon(lp.iter)[:50]}, which has consumed os.walk before the first iteration: the pruning has no "
+                                        "effect and the sub-directories of an identified job are visited (a nested state point file becomes a job of its own)", construct=k))
+                elif td is not None and ctx.fold(td, fi) is not True:
+                    out.append(ctx.viol(R, fi, lp, f"the loop prunes `{dn}` but walks with topdown={canon(td)}: the pruning has no effect", construct=k))
+                else:
+                    out.append(ctx.ok(R, fi, lp, f"`{dn}` is pruned in place on the live, top-down os.walk generator", construct=k))
+    if not n_prune:
+        out.append(ctx.info(R, None, None, "no pruning os.walk loop in " + ", ".join(modules), construct="walk-prune"))
+    return out
+
+
+_TEXT_SEARCH = ("split", "rsplit", "partition", "rpartition", "replace", "find", "rfind", "index", "rindex", "strip", "lstrip", "rstrip", "removeprefix")
+
+
+def no_path_text_search(ctx, R, quals, why):
+    """A path is taken apart by position (os.path.relpath / dirname / basename, slicing at a known length) or at separators, never by searching for the text of another
+    path inside it: that text can occur more than once."""
+    out = []
+    for q in quals:
+        fi = ctx.prog.funcs.get(q)
+        k = f"{q}|path-text-search"
+        if fi is None:
+            out.append(ctx.inc(R, None, None, f"function {q} not found", construct=k))
+            continue
+        hit = None
+        for c in body_nodes(fi):
+            if isinstance(c, ast.Call) and isinstance(c.func, ast.Attribute) and c.func.attr in _TEXT_SEARCH and c.args:
+                a = common.inline_at(ctx, fi, c.args[0], c)
+                v = ctx.fold(a, fi)
+                if isinstance(v, str) and len(v) <= 2:
+                    continue  # a separator / single character
+                t = canon(a)
+                if t in ("os.sep", "os.path.sep", "os.altsep", "os.pardir", "os.curdir") or isinstance(a, ast.Constant):
+                    continue
+                if c.func.attr in ("strip", "lstrip", "rstrip") and isinstance(v, str):
+                    continue
+                if c.func.attr == "removeprefix":
+                    continue  # anchored at position 0
+                hit = hit or (c, t)
+        if hit:
+            c, t = hit
+            out.append(ctx.viol(R, fi, c, f"`{canon(c)[:60]}` locates `{t[:30]}` by searching its text: {why}", construct=k))
+        else:
+            out.append(ctx.ok(R, fi, fi.node, "paths are decomposed by position / at separators only", construct=k, nontrivial=False))
     return out
